@@ -82,10 +82,17 @@ def run_py_modes(ctx, key, pkg, nsets):
             data = c.encode_stream(proto, m.schema(proto.name), vals)
             for ep in [rt.PyEndpoint(m, in_how="bytesio"), rt.PyEndpoint(m, in_how="short7"), rt.PyEndpoint(m, in_how="path"),
                        rt.PyEndpoint(m, mode="list"), rt.PyEndpoint(m, mode="gen"), rt.PyEndpoint(m, mode="itemwise"),
-                       rt.PyEndpoint(m, mode="pairs")]:
+                       rt.PyEndpoint(m, mode="pairs"), rt.PyEndpoint(m, mode="fortran")]:
                 r = ep.copy(proto.name, "bin", "bin", data)
                 ctx.ev(); ctx.count("pymode." + ep.name)
-                rt.judge(ctx, m, proto, vals, data, r, ep.name, "bin", "py-modes %s/%s set %d" % (key, proto.name, k), {"key": key})
+                ok = rt.judge(ctx, m, proto, vals, data, r, ep.name, "bin", "py-modes %s/%s set %d" % (key, proto.name, k), {"key": key})
+                if ok and ep.mode in ("list", "pairs", "itemwise"):
+                    # Python's block structure read through the batched C++ API: batches that fill exactly at the end of a block
+                    nstreams = sum(1 for _, t in proto.steps if isinstance(c.fq(t), S))
+                    for cap in (2, 5):
+                        r2 = rt.CppEndpoint(m, "plain", bufs=[cap] * max(1, nstreams)).copy(proto.name, "bin", "bin", r.out)
+                        ctx.ev(); ctx.count("pymode->cpp.cap%d" % cap)
+                        rt.judge(ctx, m, proto, vals, r.out, r2, "cpp-plain", "bin", "py-modes %s/%s set %d: python (%s) output read by C++ in batches of %d" % (key, proto.name, k, ep.mode, cap), {"key": key})
             ctx.case(("pymode", key, proto.name, k))
     m.close()
 
@@ -143,7 +150,9 @@ def run_multiarray(ctx):
     f64t = P("float64")
     pkg = Pkg("MultiArr", [Rec("MaPair", [("head", A(f64t, None)), ("n", P("int32")), ("tail", A(f64t, None)), ("small", A(P("uint8"), None))]),
                            Rec("MaFix", [("head", A(P("float32"), ((None, 4),))), ("tail", V(P("float64")))]),
-                           Proto("MaP", [("pairs", S(N("MaPair"))), ("fixes", S(N("MaFix"))), ("end", P("int32"))])])
+                           Rec("MaGrid", [("g", A(f64t, 2)), ("f", A(P("uint8"), ((None, 3), (None, 4)))), ("c", A(P("complexfloat32"), 3))]),
+                           Proto("MaP", [("pairs", S(N("MaPair"))), ("fixes", S(N("MaFix"))), ("end", P("int32"))]),
+                           Proto("MaG", [("one", N("MaGrid")), ("grids", S(N("MaGrid"))), ("loose", A(f64t, None))])])
     m = rt.prepare_model(ctx, "multiarr", pkg, ["plain"])
     if m is None:
         raise Inconclusive("multi-array model did not build")
@@ -163,6 +172,23 @@ def run_multiarray(ctx):
             rr = ep.copy("MaP", "bin", ofmt, data)
             ctx.ev(); ctx.count("multiarray." + ep.name)
             rt.judge(ctx, m, proto, vals, data, rr, ep.name, ofmt, "multi-array records over %d bytes (%s -> %s)" % (len(data), ep.name, ofmt), {"multiarray": True})
+    # multi-dimensional arrays handed to the Python writer in Fortran order (and as read)
+    protog = pkg.find("MaG")
+    def grid(i):
+        return [((3, 5), [f64(float(100 * i + j)) for j in range(15)]), ((3, 4), [(i + j) % 251 for j in range(12)]),
+                ((2, 3, 2), [(f32(float(j)), f32(float(-i))) for j in range(12)])]
+    valsg = [grid(0), [grid(i) for i in range(1, 5)], ((4, 6), [f64(float(j) / 8) for j in range(24)])]
+    datag = c.encode_stream(protog, m.schema("MaG"), valsg)
+    ctx.case(("multiarray-grids", len(datag)))
+    for ep in (rt.PyEndpoint(m), rt.PyEndpoint(m, mode="fortran"), rt.PyEndpoint(m, mode="list")):
+        for ofmt in ("bin", "ndjson"):
+            rr = ep.copy("MaG", "bin", ofmt, datag)
+            ctx.ev(); ctx.count("multiarray-grids." + ep.name)
+            ok = rt.judge(ctx, m, protog, valsg, datag, rr, ep.name, ofmt, "2-D / 3-D arrays (%s -> %s)" % (ep.name, ofmt), {"multiarray": True})
+            if ok and ofmt == "bin":
+                r2 = rt.CppEndpoint(m, "plain").copy("MaG", "bin", "bin", rr.out)
+                ctx.ev()
+                rt.judge(ctx, m, protog, valsg, rr.out, r2, "cpp-plain", "bin", "2-D / 3-D arrays written by %s read by C++" % ep.name, {"multiarray": True})
     m.close()
 
 
